@@ -148,7 +148,9 @@ package destination
 
 // ---------------------------------------------------------------- conn.go: framing of the socket stream (C05)
 // linesOf(log): the lines received so far, each followed by one newline, in order
-//@ smt (define-fun-rec linesOf ((l Log)) Bytes (ite ((_ is lnil) l) bempty (bconcat (bconcat (linesOf (lrest l)) (eBc (llast l))) (blit "\n"))))
+//@ smt (declare-fun linesOf (Log) Bytes)
+//@ axiom linesOf_nil: (assert (= (linesOf lnil) bempty))
+//@ axiom linesOf_snoc: (assert (forall ((l Log) (e Elem)) (! (= (linesOf (lsnoc l e)) (bconcat (bconcat (linesOf l) (eBc e)) (blit "\u{a}"))) :pattern ((lsnoc l e)))))
 //@ spec connBufOK(c *Conn) bool := c.buffered != nil && c.buffered.rep() && len(newLine) == 1 && newLine[..] == "\n" && newLine.arr != c.buffered.buf.arr
 //@      && c.numErrWrite != nil && c.numErrTruncated != nil && c.numDropBadPickle != nil
 //@
@@ -217,7 +219,7 @@ package destination
 //@   modifies *
 //@   loop 1:
 //@     invariant[wf] connBufOK(c) && c.In != nil && c.keepSafe != nil && !c.keepSafe.Mutex.held && c.flush != nil && c.flushErr != nil && c.shutdown != nil && !c.pickle && c.numOut != nil && c.numErrFlush != nil && tickerFlush != nil && tickerFlush.C != nil
-//@     // not yet discharged (recursive spec function + concatenation): c.buffered.view() == linesOf(recvd(c.In))
+//@     invariant[stream_is_the_lines_in_order; C05] c.buffered.view() == linesOf(recvd(c.In))
 //@     assumed_invariant[channel_ownership] !closed(c.In) && !closed(c.flushErr)
 //@     invariant[keepsafe_buffers] c.keepSafe.safeOld.arr != c.keepSafe.safeRecent.arr || c.keepSafe.safeOld.arr == 0
 //@   assume_recv "<-c.In": $recv.arr != c.buffered.buf.arr
